@@ -5,6 +5,7 @@ import (
 	"context"
 	"crypto/rand"
 	"errors"
+	"fmt"
 
 	awsv2 "github.com/aws/aws-sdk-go-v2/aws"
 	kmsv2 "github.com/aws/aws-sdk-go-v2/service/kms"
@@ -27,6 +28,8 @@ func arn(r string) string { return "arn:aws:kms:" + r + ":key" }
 // world is the fake cloud: one KMS per region, blobs are region-bound.
 type world struct {
 	failGen, failEnc, failDec map[string]bool
+	errKind                   int               // what a failing regional call returns: 0 plain error, 1 wraps context.DeadlineExceeded, 2 wraps context.Canceled
+	incomplete                map[string]bool   // GenerateDataKey answers with a data key but an empty ciphertext blob
 	shortKey                  bool              // GenerateDataKey hands back a key of the wrong size (the AEAD step fails)
 	wrongDec                  map[string]bool   // the region answers Decrypt with a data key that is not the one it wrapped
 	blobs                     map[string][]byte // blob id -> plaintext copy
@@ -38,11 +41,20 @@ type world struct {
 }
 
 func newWorld(n int, wrapFaults, unwrapFaults bool) *world {
-	w := &world{failGen: map[string]bool{}, failEnc: map[string]bool{}, failDec: map[string]bool{}, wrongDec: map[string]bool{}, blobs: map[string][]byte{}, blobRegion: map[string]string{}}
+	w := &world{failGen: map[string]bool{}, failEnc: map[string]bool{}, failDec: map[string]bool{}, wrongDec: map[string]bool{}, incomplete: map[string]bool{}, blobs: map[string][]byte{}, blobRegion: map[string]string{}}
+	if k := vx.Param("errkinds"); k > 1 {
+		// an unreachable region surfaces through the SDK's HTTP client as an error that wraps
+		// context.DeadlineExceeded / context.Canceled although the caller's own context is live: it is still just
+		// a failed region
+		w.errKind = vx.Choice("errkind", k)
+	}
 	for _, r := range regions[:n] {
 		if wrapFaults {
 			w.failGen[r] = vx.Bool("failgen")
 			w.failEnc[r] = vx.Bool("failenc")
+			if vx.Param("incomplete") == 1 && !w.failGen[r] {
+				w.incomplete[r] = vx.Bool("incomplete")
+			}
 		}
 		if unwrapFaults {
 			w.failDec[r] = vx.Bool("faildec")
@@ -57,6 +69,16 @@ func newWorld(n int, wrapFaults, unwrapFaults bool) *world {
 	return w
 }
 
+func (w *world) unavailable() error {
+	switch w.errKind {
+	case 1:
+		return fmt.Errorf("kms unreachable: %w", context.DeadlineExceeded)
+	case 2:
+		return fmt.Errorf("kms unreachable: %w", context.Canceled)
+	}
+	return errors.New("kms unavailable")
+}
+
 func (w *world) wrap(region string, pt []byte) []byte {
 	w.nblob++
 	id := "blob:" + region + ":" + string(rune('a'+w.nblob))
@@ -68,7 +90,7 @@ func (w *world) wrap(region string, pt []byte) []byte {
 func (w *world) generate(region string) ([]byte, []byte, error) {
 	w.log = append(w.log, "gen:"+region)
 	if w.failGen[region] {
-		return nil, nil, errors.New("kms unavailable")
+		return nil, nil, w.unavailable()
 	}
 	n := 32
 	if w.shortKey {
@@ -76,8 +98,11 @@ func (w *world) generate(region string) ([]byte, []byte, error) {
 	}
 	pt := make([]byte, n)
 	rand.Read(pt)
-	blob := w.wrap(region, pt)
 	w.handedOut = append(w.handedOut, pt)
+	if w.incomplete[region] {
+		return pt, []byte{}, nil
+	}
+	blob := w.wrap(region, pt)
 	return pt, blob, nil
 }
 
@@ -85,7 +110,7 @@ func (w *world) encrypt(region string, pt []byte) ([]byte, error) {
 	w.log = append(w.log, "enc:"+region)
 	w.received = append(w.received, pt)
 	if w.failEnc[region] {
-		return nil, errors.New("kms unavailable")
+		return nil, w.unavailable()
 	}
 	return w.wrap(region, pt), nil
 }
@@ -93,7 +118,7 @@ func (w *world) encrypt(region string, pt []byte) ([]byte, error) {
 func (w *world) decrypt(region string, blob []byte) ([]byte, error) {
 	w.log = append(w.log, "dec:"+region)
 	if w.failDec[region] {
-		return nil, errors.New("kms unavailable")
+		return nil, w.unavailable()
 	}
 	pt, ok := w.blobs[string(blob)]
 	if !ok || w.blobRegion[string(blob)] != region {
@@ -318,7 +343,7 @@ func WrapUnwrap() {
 	out, err := unwrapper.DecryptKey(context.Background(), env)
 	canUnwrap := false
 	for _, r := range regions[:n] {
-		if has[r] && !w.failDec[r] && !w.wrongDec[r] {
+		if has[r] && !w.failDec[r] && !w.wrongDec[r] && !(r == gen && w.incomplete[r]) {
 			canUnwrap = true
 		}
 	}
